@@ -126,12 +126,47 @@ struct Built {
 }
 
 fn build_on(tree: &mut MerkleTree, leaves: &[Hex]) -> Result<Built, String> {
+    build_on_order(tree, leaves, 0)
+}
+
+/// positions are asked for in the order `order` selects: 0 ascending, 1 descending, 2 odd positions then even ones,
+/// 3 even then odd, 4 ascending with every position asked twice, 5.. a stride permutation
+fn query_order(n: usize, order: u8) -> Vec<usize> {
+    match order % 6 {
+        0 => (0..n).collect(),
+        1 => (0..n).rev().collect(),
+        2 => (0..n).filter(|i| i % 2 == 1).chain((0..n).filter(|i| i % 2 == 0)).collect(),
+        3 => (0..n).filter(|i| i % 2 == 0).chain((0..n).filter(|i| i % 2 == 1)).collect(),
+        4 => (0..n).flat_map(|i| [i, i]).collect(),
+        _ => {
+            // i -> i * s mod n for an s coprime to n
+            let mut s = (order as usize / 6) * 2 + 3;
+            let gcd = |mut a: usize, mut b: usize| {
+                while b != 0 {
+                    let t = a % b;
+                    a = b;
+                    b = t;
+                }
+                a
+            };
+            while n > 1 && gcd(s, n) != 1 {
+                s += 1;
+            }
+            (0..n).map(|i| (i * s) % n.max(1)).collect()
+        }
+    }
+}
+
+fn build_on_order(tree: &mut MerkleTree, leaves: &[Hex], order: u8) -> Result<Built, String> {
     no_unwind(|| {
         for l in leaves {
             tree.push_leaf(&l.0);
         }
         let root = tree.compute_root();
-        let paths = (0..leaves.len()).map(|i| tree.get_paths(i)).collect();
+        let mut paths = vec![vec![]; leaves.len()];
+        for i in query_order(leaves.len(), order) {
+            paths[i] = tree.get_paths(i);
+        }
         Built { root, paths }
     })
 }
@@ -286,6 +321,23 @@ pub fn binding(ctx: &mut Ctx, ietf: bool, leaves: &[Hex], i: usize, bit: u16, ki
             bad(ctx, "element-added", format!("element inserted at position {} (fill {})", e, fill), r)?;
         }
     }
+    // a partial element (1 byte, half a node, a node minus one byte, a node of the other profile's width) appended
+    for extra in [1usize, w / 2, w - 1, 32] {
+        if extra % w == 0 {
+            continue;
+        }
+        let mut p = path.clone();
+        p.extend(std::iter::repeat(0x5au8).take(extra));
+        let r = recomputes(&tree, i, &leaves[i].0, &p);
+        bad(ctx, "partial-element-appended", format!("{} extra bytes after the path", extra), r)?;
+        let mut p = path.clone();
+        let keep = p.len().saturating_sub(extra);
+        p.truncate(keep);
+        if p.len() != path.len() {
+            let r = recomputes(&tree, i, &leaves[i].0, &p);
+            bad(ctx, "partial-element-removed", format!("last {} bytes of the path cut off", extra), r)?;
+        }
+    }
     ctx.class(&format!("{}:binding:{}", kind, if ietf { "ietf" } else { "classic" }));
     ctx.nontrivial(&("binding", ietf, i, leaves));
     Ok(())
@@ -299,6 +351,14 @@ pub fn reuse(ctx: &mut Ctx, ietf: bool, batches: &[Vec<Hex>], kind: &str) -> Res
 }
 
 pub fn reuse_idle(ctx: &mut Ctx, ietf: bool, batches: &[Vec<Hex>], idle: &[u32], kind: &str) -> Res {
+    // every history is run under three families of query orders
+    for order_salt in [0u8, 1, 2] {
+        reuse_idle_order(ctx, ietf, batches, idle, kind, order_salt)?;
+    }
+    Ok(())
+}
+
+fn reuse_idle_order(ctx: &mut Ctx, ietf: bool, batches: &[Vec<Hex>], idle: &[u32], kind: &str, order_salt: u8) -> Res {
     let mut tree = MerkleTree::new(ver(ietf));
     let mut prev_n = 0usize;
     let mut nt = false;
@@ -315,7 +375,8 @@ pub fn reuse_idle(ctx: &mut Ctx, ietf: bool, batches: &[Vec<Hex>], idle: &[u32],
         if extra > 0 && !tree.is_empty() {
             return ctx.fail("not-empty-after-reset", format!("is_empty() is false after {} resets", extra + 1));
         }
-        let reused = match build_on(&mut tree, leaves) {
+        // the order in which positions are asked for varies from batch to batch (the fresh tree is asked in ascending order)
+        let reused = match build_on_order(&mut tree, leaves, (k as u8).wrapping_mul(5).wrapping_add(leaves.len() as u8).wrapping_add(order_salt)) {
             Ok(b) => b,
             Err(p) => return ctx.fail(format!("reuse-build-panic|{}", panic_site(&p)), format!("batch {} (n={}) after n={} panicked: {}", k, leaves.len(), prev_n, p)),
         };
